@@ -328,6 +328,47 @@ def run_D(case):
                     viol.append({"clause": "finiteness_pattern", "key": key,
                                  "detail": f"{zone} {defect}: row {p.index[j]} predicted={p['predicted'].iloc[j]!r} temperature={df['temperature'].iloc[j]!r}"})
                 beh.append(int(got.sum()))
+    # short daily windows (day pairs, three days) with the day of the clock change first / in the middle / last, through both entry points:
+    # one row per supplied day, at its own stamp, with a prediction (every supplied temperature and usage value is finite)
+    model = em.DailyModel.from_dict(dd.document(subs, dd.settings_dump("current"), tz=zone))
+    for nrows in (2, 3):
+        for off in range(nrows):
+            naive = pd.date_range(day - pd.Timedelta(days=off), periods=nrows, freq="D")
+            try:
+                # zones that change the clock at local midnight have a day without a 00:00 (or with two): such a day first or last in the data
+                # (or next to it: the classes pad by a day) is the open C10 finding `no-midnight day at the edge of the data`; the short windows keep to the other zones
+                pd.date_range(naive[0] - pd.Timedelta(days=1), periods=nrows + 2, freq="D").tz_localize(zone, ambiguous="raise", nonexistent="raise")
+                idx = naive.tz_localize(zone, ambiguous="raise", nonexistent="raise")
+            except Exception:
+                continue
+            T = 50.0 + 2.0 * np.arange(nrows)
+            y = 100.0 + np.arange(nrows)
+            for entry in ("frame", "from_series"):
+                for usage in (True, False):
+                    key = {"family": "daily", "usage": usage, "window": "short", "entry": entry}
+                    try:
+                        if entry == "frame":
+                            cols = {"observed": y, "temperature": T} if usage else {"temperature": T}
+                            data = em.DailyReportingData(pd.DataFrame(cols, index=idx), is_electricity_data=True)
+                        else:
+                            data = em.DailyReportingData.from_series(pd.Series(y, index=idx, name="observed") if usage else None,
+                                                                     pd.Series(T, index=idx, name="temperature"), is_electricity_data=True)
+                        n += 1
+                        p = model.predict(data)
+                    except Exception as exc:
+                        viol.append({"clause": "short_window_raised", "key": dict(key, exc=type(exc).__name__),
+                                     "detail": f"{zone} {nrows} daily rows from {naive[0].date()} ({entry}, usage={usage}): {type(exc).__name__}: {str(exc)[:160]}"})
+                        continue
+                    if not p.index.equals(idx.as_unit(p.index.unit) if hasattr(idx, "as_unit") else idx):
+                        viol.append({"clause": "short_window_rows", "key": key,
+                                     "detail": f"{zone} {nrows} daily rows from {naive[0].date()} ({entry}, usage={usage}): result rows {list(map(str, p.index))}"})
+                        continue
+                    got = np.isfinite(p["predicted"].to_numpy(float))
+                    if not got.all():
+                        viol.append({"clause": "short_window_prediction_missing", "key": key,
+                                     "detail": f"{zone} {nrows} daily rows from {naive[0].date()} ({entry}, usage={usage}): every supplied value is finite, "
+                                               f"predicted = {p['predicted'].tolist()}, observed in the data object = {data.df.get('observed', pd.Series(dtype=float)).tolist()}"})
+                    beh.append(int(got.sum()))
     return {"behaviour": beh, "violations": viol, "stats": {"predicts": n}}
 
 
@@ -483,7 +524,8 @@ def run(tier, seed):
         rule="H: one case = (zone signature class, UTC-offset transition); frames of 3 and 2 local days with the transition day in the "
         "middle / first / last, with and without usage, through HourlyReportingData and HourlyModel.predict, plus the slot-level check; "
         "D: one case = (zone class, transition of the chosen years): 10 daily rows / 70 days of billing reads around it x "
-        "{no defect, NaN temperature on / after the transition day, on the first / last two days of the frame, NaN usage} x usage present/absent; L: one case = (zone, span of 230-730 "
+        "{no defect, NaN temperature on / after the transition day, on the first / last two days of the frame, NaN usage} x usage present/absent, plus daily windows of two "
+        "and three rows with the transition day at every position through the frame constructor and from_series; L: one case = (zone, span of 230-730 "
         "days holding two to four clock changes in either order): hourly predict with/without usage, daily predict with a season-split "
         "and a day-type-split model over the span and over 40 days inside one season; M: one case = (meter shape exactly constant over part of "
         "the temperature range: heating-only at 0 when warm, cooling-only at 0 when cold, two-decimal resolution, constant pilot, zero "
